@@ -845,6 +845,9 @@ class _CallableDict(dict):
 
 
 class _HookHolder:
+    def collect(self, *a, **k):
+        return (a, sorted(k.items()))
+
     hook = None
 
     def __call__(self, *a, **kw):
@@ -881,6 +884,39 @@ def values_that_are_specs_are_data(col):
         ('callee is a stored Spec', lambda: T['vs']('abc'), lambda t: t['vs']('abc')),
         ('callee is a stored Val', lambda: T['vv'](), lambda t: t['vv']()),
     ]
+    # keyword arguments are the caller's: any name is passed on, also names the library uses for parameters of its own
+    for kw in ('func', 'args', 'kwargs', 'target', 'scope', 'spec', 'cls', 't', 'path', 'default', 'skip_exc', 'glom', 'T', 'op', 'arg', 'cur'):
+        cases.append(('call keyword named %s' % kw, (lambda kw=kw: T['f'](1, **{kw: T['w']})), (lambda t, kw=kw: t['f'](1, **{kw: t['w']}))))
+        cases.append(('method call keyword named %s' % kw, (lambda kw=kw: T['holder'].collect(**{kw: 2})), (lambda t, kw=kw: t['holder'].collect(**{kw: 2}))))
+    # "every other argument is passed through literally": a class is a literal - also the library's own spec classes and a user's
+    # class that has a glomit method (they are specs only once instantiated)
+    import glom as _g
+
+    class UserSpecClass:
+        def glomit(self, target, scope):
+            return 'evaluated!'
+
+    class UserSpecClassCM:
+        @classmethod
+        def glomit(cls, target, scope):
+            return 'evaluated!'
+    for c in (_g.Spec, _g.Path, _g.Coalesce, _g.Val, _g.Check, _g.Match, _g.Iter, _g.Fill, _g.Auto, _g.Call, _g.Invoke, _g.Or, _g.Not, _g.Ref, _g.Flatten,
+              _g.Assign, UserSpecClass, UserSpecClassCM, int, dict):
+        nm = c.__name__
+        cases.append(('call positional literal class %s' % nm, (lambda c=c: T['f'](c)), (lambda t, c=c: t['f'](c))))
+        cases.append(('call keyword literal class %s' % nm, (lambda c=c: T['f'](k=c)), (lambda t, c=c: t['f'](k=c))))
+        cases.append(('call literal tuple of classes %s' % nm, (lambda c=c: T['f']((c, int), [c], {'k': c})), (lambda t, c=c: t['f']((c, int), [c], {'k': c}))))
+        cases.append(('index literal class %s' % nm, (lambda c=c: T['bycls'][c]), (lambda t, c=c: t['bycls'][c])))
+        cases.append(('isinstance against literal classes %s' % nm, (lambda c=c: T['isinstance'](T['w'], (c, str))), (lambda t, c=c: isinstance(t['w'], (c, str)))))
+    base_mk = mk
+    all_classes = (_g.Spec, _g.Path, _g.Coalesce, _g.Val, _g.Check, _g.Match, _g.Iter, _g.Fill, _g.Auto, _g.Call, _g.Invoke, _g.Or, _g.Not, _g.Ref, _g.Flatten,
+                   _g.Assign, UserSpecClass, UserSpecClassCM, int, dict)
+
+    def mk():
+        t = base_mk()
+        t['bycls'] = {c: 'entry of %s' % c.__name__ for c in all_classes}
+        t['isinstance'] = isinstance
+        return t
     for desc, mk_spec, py in cases:
         t = mk()
         want = call(py, t)
@@ -893,7 +929,8 @@ def values_that_are_specs_are_data(col):
         if not want.ok and not got.ok and 'callee' in desc and not isinstance(got.exc, type(want.exc)):
             ok = False
         if not ok:
-            col.violation('C02/argument-value-evaluated-again:' + desc.split(' <-')[0].replace(' ', '-'),
+            col.violation(('C02/keyword-argument-not-passed-on:' if 'keyword named' in desc else 'C02/literal-class-argument-not-passed-literally:'
+                           if 'literal' in desc and 'class' in desc else 'C02/argument-value-evaluated-again:') + desc.split(' <-')[0].replace(' ', '-'),
                           '%s: glom gives %r, the same operations applied directly give %r' % (desc, got, want), None)
 
 
